@@ -208,6 +208,15 @@ function multiFileProjects() {
   add("import-type-self-default-generic", { "entry.ts": 'type T = import("./x")<string>;\nexport const P = parse.buildParsers<{ A: T }>();', "x.ts": 'type L<T> = { n: import("./x")<T> | null };\nexport default L;' });
   add("import-type-self-default-generic-growing", { "entry.ts": 'type T = import("./x")<string>;\nexport const P = parse.buildParsers<{ A: T }>();', "x.ts": 'type L<T> = { n: import("./x")<T[]> | null };\nexport default L;' });
   add("import-type-mutual-default", { "entry.ts": 'type T = import("./x");\nexport const P = parse.buildParsers<{ A: T }>();', "x.ts": 'type X = { y: import("./y") | null };\nexport default X;', "y.ts": 'type Y = { x: import("./x") };\nexport default Y;' });
+  // several semantic computations with recursive types below the top of their results in ONE buildParsers call
+  // (helper types generated for recursion must get distinct names across computations)
+  {
+    const decls = "type Tree = { value: string; children: Tree[] };\ntype Dir = { name: string; entries: Dir[] };\ntype Chain = { next: Chain | null };\n";
+    const comps = ["Exclude<Tree | string, string>", "Exclude<Chain | number | string, string>", "Exclude<{ a: Tree } | null, null>", "Exclude<{ a: Dir } | null, null>", "Exclude<{ a: Chain } | string, string>", "Exclude<Tree[] | number, number>", "({ x: Dir } | { x: Dir; y: 1 })[\"x\"]", "Exclude<{ a: Tree; b: Dir } | null, null>", "Exclude<[Tree, Dir] | null, null>"];
+    for (let i = 0; i < comps.length; i++)
+      for (let j = i + 1; j < comps.length; j++) add(`semantic-recursion-pair-${i}-${j}`, { "entry.ts": `${decls}type X = ${comps[i]};\ntype Y = ${comps[j]};\nexport const P = parse.buildParsers<{ X: X, Y: Y }>();` }, { valid: true });
+    add("semantic-recursion-all", { "entry.ts": `${decls}${comps.map((c, i) => `type X${i} = ${c};`).join("\n")}\nexport const P = parse.buildParsers<{ ${comps.map((_, i) => `X${i}: X${i}`).join(", ")} }>();` }, { valid: true });
+  }
   add("bare-module-specifier", { "entry.ts": 'import { A } from "some-package";\nexport const P = parse.buildParsers<{ A: A }>();' });
   add("import-equals", { "entry.ts": 'import A = require("./a");\nexport const P = parse.buildParsers<{ A: A }>();', "a.ts": "export type A = 1;" });
   add("namespace-merge", { "entry.ts": "interface A { a: 1 }\ninterface A { b: 2 }\nnamespace A { export type C = 3 }\nexport const P = parse.buildParsers<{ A: A, C: A.C }>();" });
@@ -315,6 +324,24 @@ export async function run() {
     const got = Object.keys(parsers);
     if (want && (want.length !== got.length || want.some((k) => !got.includes(k)))) fail("buildParsers does not return a parser for every requested name", `requested ${want.join(",")}, got ${got.join(",")}`);
     for (const k of got) if (typeof parsers[k]?.validate !== "function") fail("buildParsers returned something that is not a parser", k);
+    // every parser answers a few probe values without throwing (a reference to a name the module does not define throws on use)
+    const tree = { value: "", children: [{ value: "", children: [] }] };
+    const dir = { name: "", entries: [{ name: "", entries: [] }] };
+    const deep = { kids: [{ kids: [] }], next: { next: null }, a: tree, b: dir, x: dir, ...tree, ...dir };
+    // (only for programs that are well-formed TypeScript by construction: `type A = A` also gets code, and what that
+    // code does is not C04's matter)
+    const wellFormed = p.valid ?? ["families", "layouts", "same-name layouts", "value-route layouts", "star-graph layouts"].includes(gen);
+    for (const k of wellFormed ? got : []) {
+      if (typeof parsers[k]?.validate !== "function") continue;
+      for (const probe of [undefined, null, {}, [], "", 0, deep, [deep], [tree, dir]]) {
+        try {
+          parsers[k].validate(probe);
+        } catch (e) {
+          fail(`a generated parser throws on use : ${String(e.message).replace(/\d+/g, "N").slice(0, 60)}`, `parser ${k} on ${JSON.stringify(probe)?.slice(0, 60)}: ${e.message}`);
+          break;
+        }
+      }
+    }
     if (samples.length < 4 && stats.compiles % 1999 === 11) samples.push({ generator: gen, name: p.name ?? p.note, entry: files[entry]?.slice(0, 200), outcome: "code" });
   };
   try {
